@@ -254,10 +254,13 @@ func (st *State) callExtern(g *G, fr *Frame, name string, fn *ssa.Function, args
 		return st.freshVar("sprint", SStr), false
 
 	// ---- strings / bytes ----
-	case "strings.Contains":
-		return StrContains(st.strArg(args[0]), st.strArg(args[1])), false
-	case "bytes.Contains":
-		return StrContains(st.strArg(args[0]), st.strArg(args[1])), false
+	case "strings.Contains", "bytes.Contains":
+		h, n := st.strArg(args[0]), st.strArg(args[1])
+		r := StrContains(h, n)
+		if !h.Const && n.Const {
+			st.containsObs = append(st.containsObs, containsObs{Hay: h.S, Needle: n.Str, T: r})
+		}
+		return r, false
 	case "strings.HasPrefix":
 		return StrPrefixOf(st.strArg(args[1]), st.strArg(args[0])), false
 	case "strings.HasSuffix":
@@ -379,7 +382,7 @@ func (st *State) cutCall(kind, name string, args []Val, sig *types.Signature) Va
 	switch kind {
 	case "havoc":
 		return st.havocResult(sig, name)
-	case "uf", "ufok":
+	case "uf", "ufok", "ufshrink":
 		// uninterpreted function of the (string-like) arguments ("ufok": error results are nil)
 		key := name
 		for _, a := range args {
@@ -396,6 +399,14 @@ func (st *State) cutCall(kind, name string, args []Val, sig *types.Signature) Va
 			return v
 		}
 		v := st.havocResult2(sig, name, kind == "ufok")
+		if kind == "ufshrink" {
+			// lemma (discharged separately for the real function): the result is never longer than the input
+			if bv, ok := v.(BytesVal); ok && len(args) == 1 {
+				if in, ok := args[0].(BytesVal); ok {
+					st.assume(Cmp("<=", StrLen(bv.S), StrLen(in.S), true))
+				}
+			}
+		}
 		// carry provenance through
 		if bv, ok := v.(BytesVal); ok {
 			for _, a := range args {
@@ -693,9 +704,11 @@ func (st *State) jsonUnmarshal(args []Val) Val {
 	if st.branch(isErr) {
 		er := st.newErr(Str("json: error"))
 		st.jsonCache[key] = cached{err: er}
+		st.jsonCalls = append(st.jsonCalls, jsonCall{T: l.T, Err: isErr, Data: data.S})
 		return er
 	}
 	v := st.fresh(l.T, "json."+tn, 0)
+	st.jsonCalls = append(st.jsonCalls, jsonCall{T: l.T, Err: isErr, Val: v, Data: data.S})
 	st.store(l, v)
 	st.jsonCache[key] = cached{err: IfaceVal{}, val: v}
 	st.logf("json.Unmarshal(%s) ok", tn)
